@@ -47,7 +47,7 @@ def gen(rng):
         tdir = rng.choice(used_dirs if rng.random() < 0.8 else [l[0] for l in locs])
         # an undated neighbour sometimes claims the very location of a well-formed entry
         # (an older generation of the same file whose info lost its date)
-        pv = TG.pct(rng.choice(made)[2]) if (made and k in ('nodate', 'baddate') and rng.random() < 0.5) else None
+        pv = TG.pct(rng.choice(made)[2]) if (made and k in ('nodate', 'baddate', 'offsetdate') and rng.random() < 0.5) else None
         TG.add_malformed(rng, extra, tdir, k, str(i), path_value=pv)
     reader = rng.choice(['list', 'restore', 'restore', 'rm', 'empty'])
     stdin = ''
